@@ -104,6 +104,13 @@ func TestC02(t *testing.T) {
 		if n := r.net.Panics.Load(); n > 0 {
 			rec.Fail(t, "handler-panic-during-churn", map[string]any{"plan": plan, "panic": r.net.PanicLog[0]}, "handler panicked during churn: %s", firstLine(r.net.PanicLog[0]))
 		}
+		if n := r.net.Timeouts.Load(); n > 0 && c.Problem != "" {
+			// a caller gave up on a call after the 10 s transport timer: from then on the history
+			// contains a lost response, which is C07's subject, not graceful churn
+			rec.Add("rpc_timeouts", n)
+			rec.Inconclusive("rpc-timeout-fired-during-churn")
+			return
+		}
 		if c.Problem != "" {
 			doc["problem"] = c.Problem
 			if orphaned(r) && !orphanedByLockedLeaves(r) {
